@@ -418,16 +418,105 @@ func isMinMaxCall(v ssa.Value) (*ssa.Call, bool) {
 	if !ok {
 		return nil, false
 	}
-	if b, ok := c.Call.Value.(*ssa.Builtin); ok && (b.Name() == "max" || b.Name() == "min") {
+	if minMaxKind(&c.Call) != "" {
 		return c, true
 	}
-	if cal := c.Call.StaticCallee(); cal != nil {
-		_, full := extFuncName(cal)
-		if full == "math.Max" || full == "math.Min" {
-			return c, true
+	return nil, false
+}
+
+// minMaxKind: "max" / "min" for the builtins, math.Max / math.Min and two-argument helpers of the module that return the
+// larger / smaller of their parameters (`if a < b { return b }; return a` in any polarity); "" otherwise
+func minMaxKind(cc *ssa.CallCommon) string {
+	if b, ok := cc.Value.(*ssa.Builtin); ok {
+		if b.Name() == "max" || b.Name() == "min" {
+			return b.Name()
+		}
+		return ""
+	}
+	cal := cc.StaticCallee()
+	if cal == nil {
+		return ""
+	}
+	if _, full := extFuncName(cal); full == "math.Max" || full == "math.Min" {
+		return strings.ToLower(full[5:])
+	}
+	return ssaMinMaxHelper(cal)
+}
+
+var minMaxHelperCache = map[*ssa.Function]string{}
+
+func ssaMinMaxHelper(f *ssa.Function) string {
+	if k, ok := minMaxHelperCache[f]; ok {
+		return k
+	}
+	k := ssaMinMaxHelper0(f)
+	minMaxHelperCache[f] = k
+	return k
+}
+
+func ssaMinMaxHelper0(f *ssa.Function) string {
+	if f == nil || len(f.Blocks) != 3 || len(f.Params) != 2 || f.Signature.Results().Len() != 1 || f.Signature.Recv() != nil {
+		return ""
+	}
+	if !types.Identical(f.Params[0].Type(), f.Params[1].Type()) {
+		return ""
+	}
+	if bt, ok := f.Params[0].Type().Underlying().(*types.Basic); !ok || bt.Info()&types.IsNumeric == 0 {
+		return ""
+	}
+	var iff *ssa.If
+	for _, in := range f.Blocks[0].Instrs {
+		switch x := in.(type) {
+		case *ssa.If:
+			iff = x
+		case *ssa.BinOp, *ssa.DebugRef:
+		default:
+			return ""
 		}
 	}
-	return nil, false
+	if iff == nil {
+		return ""
+	}
+	bo, ok := iff.Cond.(*ssa.BinOp)
+	if !ok {
+		return ""
+	}
+	a, b := ssa.Value(f.Params[0]), ssa.Value(f.Params[1])
+	// normalise to "x < y" (true when x is the smaller one)
+	var x, y ssa.Value
+	switch bo.Op {
+	case token.LSS, token.LEQ:
+		x, y = bo.X, bo.Y
+	case token.GTR, token.GEQ:
+		x, y = bo.Y, bo.X
+	default:
+		return ""
+	}
+	if !((x == a && y == b) || (x == b && y == a)) {
+		return ""
+	}
+	retOf := func(blk *ssa.BasicBlock) ssa.Value {
+		for _, in := range blk.Instrs {
+			switch r := in.(type) {
+			case *ssa.Return:
+				if len(r.Results) == 1 {
+					return r.Results[0]
+				}
+			case *ssa.DebugRef:
+			default:
+				return nil
+			}
+		}
+		return nil
+	}
+	tv, fv := retOf(iff.Block().Succs[0]), retOf(iff.Block().Succs[1])
+	switch {
+	case tv == y && fv == x: // smaller first: returns the larger
+		return "max"
+	case tv == x && fv == y:
+		return "min"
+	}
+	return ""
 }
 
 func runAgg1(m *Model, r *RuleResult) {
